@@ -30,7 +30,7 @@ COMPONENTS = {
     'stub': ['SimLoop (event loop)', 'SimSocket (TCP)', 'capturing queue',
              'PTR resolver shim', 'scripted byte-level client'],
 }
-BUDGET = {'quick': 12000, 'thorough': 1000000}
+BUDGET = {'quick': 14000, 'thorough': 1000000}
 STEP_CAP = 300000
 
 
